@@ -87,7 +87,9 @@ void *vf_realloc(void *p, size_t n)
     {
         size_t old = __CPROVER_OBJECT_SIZE(p);
         __CPROVER_assert(__CPROVER_POINTER_OFFSET(p) == 0, "realloc: pointer is the start of a block");
+#ifndef VF_MEMCPY_NOCONTENT
         if (g_k < old && g_k < n) { q[g_k] = ((unsigned char*)p)[g_k]; }
+#endif
         __CPROVER_assume(g_hook_frees < (size_t)-1); g_hook_frees++;
         if (p == g_live) { g_live = NULL; }
         free(p);
@@ -158,6 +160,17 @@ int strncmp(const char *a, const char *b, size_t n)
     return 0;
 }
 
+/* strcpy of a short literal (the only uses in cJSON.c copy "null", "true", "false", "\"\""): written without a loop */
+#ifndef VF_BUILTIN_STRCPY
+#define VF_SCP(i) __CPROVER_assert(__CPROVER_r_ok(src + (i), 1) && __CPROVER_w_ok(dst + (i), 1), "strcpy: byte " #i " in bounds"); dst[i] = src[i]; if (src[i] == 0) { return dst; }
+char *strcpy(char *dst, const char *src)
+{
+    VF_SCP(0) VF_SCP(1) VF_SCP(2) VF_SCP(3) VF_SCP(4) VF_SCP(5)
+    __CPROVER_assert(0, "strcpy model: source longer than 5 bytes");
+    return dst;
+}
+#endif
+
 #ifndef VF_BUILTIN_MEMCPY
 void *memcpy(void *dst, const void *src, size_t n)
 {
@@ -168,9 +181,15 @@ void *memcpy(void *dst, const void *src, size_t n)
                      __CPROVER_POINTER_OFFSET(src) + n <= __CPROVER_POINTER_OFFSET(dst), "memcpy: no overlap");
     if (n > 0)
     {
+#ifndef VF_MEMCPY_NOCONTENT
         unsigned char v = (g_k < n) ? ((const unsigned char*)src)[g_k] : 0;
+#endif
+#ifndef VF_MEMCPY_NOHAVOC
         __CPROVER_havoc_slice(dst, n);
+#endif
+#ifndef VF_MEMCPY_NOCONTENT
         if (g_k < n) { ((unsigned char*)dst)[g_k] = v; }
+#endif
     }
     return dst;
 }
@@ -251,6 +270,10 @@ double strtod(const char *nptr, char **endptr)
     return v;
 }
 
+/* ghost: which literal format the last sprintf used; whether the last sscanf converted and to what */
+enum { FMT_NONE = 0, FMT_NULL, FMT_D, FMT_15G, FMT_17G, FMT_U04X };
+int g_fmt; _Bool g_scan_ok; double g_scan_value;
+#define GHOST_FMT g_fmt, g_scan_ok, g_scan_value
 static int vf_w(char *s, int lo, int hi)
 {
     int n = nondet_int();
@@ -260,11 +283,11 @@ static int vf_w(char *s, int lo, int hi)
     s[n] = 0;
     return n;
 }
-int vf_sprintf_null(char *s) { __CPROVER_assert(__CPROVER_w_ok(s, 5), "sprintf: destination"); s[0]='n'; s[1]='u'; s[2]='l'; s[3]='l'; s[4]=0; return 4; }
+int vf_sprintf_null(char *s) { g_fmt = FMT_NULL; __CPROVER_assert(__CPROVER_w_ok(s, 5), "sprintf: destination"); s[0]='n'; s[1]='u'; s[2]='l'; s[3]='l'; s[4]=0; return 4; }
 /* widths: %d of a 32-bit int <= 11 chars; %1.15g <= 22 (sign, 15 digits, point, e, sign, 3 digits); %1.17g <= 24 */
-int vf_sprintf__d(char *s, int v) { (void)v; return vf_w(s, 1, 11); }
-int vf_sprintf__1_15g(char *s, double d) { (void)d; return vf_w(s, 1, 22); }
-int vf_sprintf__1_17g(char *s, double d) { (void)d; return vf_w(s, 1, 24); }
+int vf_sprintf__d(char *s, int v) { (void)v; g_fmt = FMT_D; return vf_w(s, 1, 11); }
+int vf_sprintf__1_15g(char *s, double d) { (void)d; g_fmt = FMT_15G; return vf_w(s, 1, 22); }
+int vf_sprintf__1_17g(char *s, double d) { (void)d; g_fmt = FMT_17G; return vf_w(s, 1, 24); }
 int vf_sprintf__i__i__i(char *s, int a, int b, int c) { (void)a; (void)b; (void)c; return vf_w(s, 5, 35); }
 int vf_sprintf_u_04x(char *s, unsigned c)
 {
@@ -277,8 +300,9 @@ int vf_sprintf_u_04x(char *s, unsigned c)
 int vf_sscanf__lg(const char *s, double *d)
 {
     __CPROVER_assert(__CPROVER_r_ok(s, 1), "sscanf: readable");
-    if (nondet_bool()) { return 0; }
+    if (nondet_bool()) { g_scan_ok = 0; return 0; }
     *d = nondet_double();
+    g_scan_ok = 1; g_scan_value = *d;
     return 1;
 }
 
